@@ -84,7 +84,8 @@ def bounds(tier):
 
 
 def plan(tier, seed):
-    chunks = [{'k': 'creator_bytes', 'lo': lo, 'hi': lo + 32} for lo in range(0, 256, 32)]
+    chunks = [{'k': 'sandwich', 'first': i} for i in range(len(VARS))]
+    chunks += [{'k': 'creator_bytes', 'lo': lo, 'hi': lo + 32} for lo in range(0, 256, 32)]
     for i in range(len(VARS)):
         chunks.append({'k': 'pairs', 'first': i, 'creators': ['O', 'B', 'H', 'x'] if tier == 'quick' else CREATORS})
     chunks.append({'k': 'repeat'})
@@ -192,6 +193,11 @@ def run_chunk(chunk):
         for c in range(chunk['lo'], chunk['hi']):
             for _, a in VARS:
                 _do(res, {'creator': chr(c), 'sections': [a]})
+    elif k == 'sandwich':
+        # a section type (or display name) that recurs with something else in between: a b a
+        a = VARS[chunk['first']][1]
+        for _, b in VARS:
+            _do(res, {'creator': 'O', 'sections': [a, b, a]})
     elif k == 'creator_pairs':
         names = ['PS+fru+mru', 'UDjson', 'UDhex', 'ED', 'LP4.1', '?ZZ', 'EH4', 'DH']
         for creator in CREATORS:
